@@ -12,6 +12,7 @@ for p in "$@"; do
   VERIF_REPO="$wt" /verif/check "$p" --tier quick 2>&1 | grep -E "VIOLATION|KNOWN-FINDING|problem \[|^\[check\] C[0-9]+:" | cut -c1-400
 done
 git -C /repo worktree remove --force "$wt"
-# Generated tables were regenerated from the worktree: restore them from /repo
+# Generated tables and the float-table dump were regenerated from the worktree: restore them from /repo
+/verif/.cache/target_check/debug/corr dump-tables --out /verif/.cache/tables.json >/dev/null 2>&1
 python3 /verif/translator/extract.py >/dev/null
 exit $rc
